@@ -340,9 +340,9 @@ def selftest():
     assert model([['inline', [['REQ', True, A]], 'one'], ['stmt', 'one']]) == [2]
     assert model([['block', [['REQ', True, A]]], ['inline', [['REQ', False, A]], 'one'], ['stmt', 'one']]) == [2]
     assert model([['stmt', 'one']], default_skip=True) == []
-    from xdoctest import directive
-    assert directive._is_requires_satisfied(MET) and not directive._is_requires_satisfied(A) \
-        and not directive._is_requires_satisfied(B)
+    import importlib.util
+    assert importlib.util.find_spec('vp_nonexistent_a') is None
+    assert os.environ.get('VP_MET') == '1' and 'VP_UNSET_B' not in os.environ
 
 
 def jobs(tier):
